@@ -129,6 +129,14 @@ func streamWatchFS(seed uint64, n int, tmp string, cf *CoqFile) *Stats {
 		nextC := 1
 		tick := 0
 		write := func(p string, fresh bool) {
+			// the edit script may already have turned this path (or its parent)
+			// into something else: make the operation applicable first
+			if st, err := os.Lstat(p); err == nil && st.IsDir() {
+				os.RemoveAll(p)
+			}
+			if st, err := os.Lstat(filepath.Dir(p)); err == nil && !st.IsDir() {
+				os.Remove(filepath.Dir(p))
+			}
 			must(os.MkdirAll(filepath.Dir(p), 0o755))
 			must(os.WriteFile(p, []byte(fmt.Sprintf("c%d", nextC)), 0o644))
 			nextC++
@@ -287,7 +295,7 @@ func streamWatchFS(seed uint64, n int, tmp string, cf *CoqFile) *Stats {
 				write(filepath.Join(root, "d0", "unrelated.md"), false)
 				editDesc = append(editDesc, "create d0/unrelated.md")
 			case 8:
-				os.Remove(w.paths[2])
+				os.RemoveAll(w.paths[2])
 				must(os.MkdirAll(w.paths[2], 0o755))
 				editDesc = append(editDesc, "replace file d0/a.js by a directory")
 			}
